@@ -659,6 +659,10 @@ FamClean(K, CH) ==
   \* the statement that produced a validation target is dropped: the file is still named by the graph (cleandead keeps it)
   \cup UNION { {Scn(gr, <<Build(SetToSeq(AllOutsG(gr)), 2, 1), [op |-> "setstmts", stmts |-> DropStmt(gr, 1)], CleanOp("dead", <<>>, FALSE, n), Build(<<>>, 2, 1)>>) : n \in BOOLEAN} :
                 gr \in {Graph(<<St1(1, <<"o1">>, <<"s1">>, <<>>), [St1(2, <<"o2">>, <<"s2">>, <<>>) EXCEPT !.val = <<"o1">>], St1(3, <<"o3">>, <<"o2">>, <<>>)>>)} }
+  \* the producer of a file that a dyndep file (on disk, loaded by the tool) names as a discovered input is dropped: the file
+  \* is still named by the graph, though not by the manifest
+  \cup UNION { {Scn(gr, <<Build(SetToSeq(AllOutsG(gr)), 2, 1), [op |-> "setstmts", stmts |-> DropStmt(gr, 3)], CleanOp("dead", <<>>, FALSE, n), Build(<<"o2">>, 2, 1)>>) : n \in BOOLEAN} :
+                gr \in {Graph(<< [St1(1, <<"dd">>, <<"s1">>, <<>>) EXCEPT !.mkdd = "dd"], [St1(2, <<"o2">>, <<"s2">>, <<"dd">>) EXCEPT !.dd = "dd", !.ddi = <<"o3">>], St1(3, <<"o3">>, <<"s1">>, <<>>) >>)} }
   \* cleaning does not need an acyclic graph: manifests with dependency cycles (which only a build diagnoses)
   \cup UNION { {Scn(gr, <<c>>) : c \in Pick(CH + 2, {x \in CleanOps(gr) : x.mode \in {"targets", "all"}})} : gr \in CycGraphs(K) }
 
